@@ -198,7 +198,10 @@ fn account(rep: &mut ScenarioReport, case: &Case, run: &exec::Run, facts: &Facts
     }
     bump(p, &format!("max_alive_{}", sim.max_alive.min(9)), 1);
     if sim.max_alive > case.instances && case.instances > 0 {
-        bump(p, "more_alive_than_instances", 1);
+        bump(p, if sim.children.iter().all(|c| c.fault_fired.is_none()) { "more_alive_than_instances_fault_free" } else { "more_alive_than_instances_after_fault" }, 1);
+    }
+    if sim.children.iter().any(|c| c.output_blocked) {
+        bump(p, "prover_blocked_on_full_output_pipe", 1);
     }
     if sim.cpu_reads > 0 {
         bump(p, "num_cpus_consulted", 1);
